@@ -2,7 +2,10 @@
 
 package ugo
 
-import "github.com/ozanh/ugo/token"
+import (
+	"github.com/ozanh/ugo/parser"
+	"github.com/ozanh/ugo/token"
+)
 
 // Specification vocabulary for the //@ contracts in verif_contracts.go.
 // Pure, loop-free Go; translated by the same pipeline as the code and run as
@@ -13,7 +16,7 @@ import "github.com/ozanh/ugo/token"
 func verifGlobals() bool {
 	return ErrZeroDivision != nil && ErrType != nil && ErrInvalidOperator != nil &&
 		ErrZeroDivision != ErrType && ErrInvalidOperator != ErrType && ErrInvalidOperator != ErrZeroDivision &&
-		Undefined != nil && specIsUndefined(Undefined) &&
+		Undefined != nil && specIsUndefined(Undefined) && specUndefinedPtr() != nil &&
 		True == Bool(true) && False == Bool(false)
 }
 
@@ -51,6 +54,11 @@ func specKindOf(o Object) specKind {
 		return kUndefined
 	}
 	return kOther
+}
+
+func specUndefinedPtr() *UndefinedType {
+	u, _ := Undefined.(*UndefinedType)
+	return u
 }
 
 func specIsUndefined(o Object) bool {
@@ -458,4 +466,148 @@ func specBoolAsInt(o Object) Object {
 func specIsNaN(o Object) bool {
 	f, ok := o.(Float)
 	return ok && f != f
+}
+
+// ---------------------------------------------------------------------------
+// Optimizer (C01)
+
+// litValue: the Object a literal expression denotes (nil if not a literal).
+func litValue(e parser.Expr) Object {
+	switch v := e.(type) {
+	case *parser.IntLit:
+		return Int(v.Value)
+	case *parser.UintLit:
+		return Uint(v.Value)
+	case *parser.FloatLit:
+		return Float(v.Value)
+	case *parser.CharLit:
+		return Char(v.Value)
+	case *parser.BoolLit:
+		return Bool(v.Value)
+	case *parser.StringLit:
+		return String(v.Value)
+	case *parser.UndefinedLit:
+		return Undefined
+	}
+	return nil
+}
+
+// litPos: the position a literal expression reports.
+func litPos(e parser.Expr) parser.Pos {
+	switch v := e.(type) {
+	case *parser.IntLit:
+		return v.ValuePos
+	case *parser.UintLit:
+		return v.ValuePos
+	case *parser.FloatLit:
+		return v.ValuePos
+	case *parser.CharLit:
+		return v.ValuePos
+	case *parser.BoolLit:
+		return v.ValuePos
+	case *parser.StringLit:
+		return v.ValuePos
+	case *parser.UndefinedLit:
+		return v.TokenPos
+	}
+	return parser.NoPos
+}
+
+func specNonNilLit(e parser.Expr) bool {
+	switch v := e.(type) {
+	case *parser.IntLit:
+		return v != nil
+	case *parser.UintLit:
+		return v != nil
+	case *parser.FloatLit:
+		return v != nil
+	case *parser.CharLit:
+		return v != nil
+	case *parser.BoolLit:
+		return v != nil
+	case *parser.StringLit:
+		return v != nil
+	case *parser.UndefinedLit:
+		return v != nil
+	}
+	return true
+}
+
+// specUnary: outcome and value of a unary operator per docs/operators.md:
+// +x is 0+x, -x is 0-x, ^x is m^x (all ones), bool is int 1/0, char is
+// promoted to int; !x is logical negation of truthiness.
+func specUnary(tok token.Token, a Object) (specOutcome, Object) {
+	switch tok {
+	case token.Not:
+		return oValue, Bool(specFalsy(a))
+	case token.Sub:
+		switch v := a.(type) {
+		case Int:
+			return oValue, -v
+		case Uint:
+			return oValue, -v
+		case Float:
+			return oValue, -v
+		case Char:
+			return oValue, Int(-v)
+		case Bool:
+			return oValue, -Int(specI64(v))
+		}
+		return oTypeErr, nil
+	case token.Xor:
+		switch v := a.(type) {
+		case Int:
+			return oValue, ^v
+		case Uint:
+			return oValue, ^v
+		case Char:
+			return oValue, ^Int(v)
+		case Bool:
+			return oValue, ^Int(specI64(v))
+		}
+		return oTypeErr, nil
+	case token.Add:
+		switch v := a.(type) {
+		case Int, Uint, Float, Char:
+			return oValue, a
+		case Bool:
+			return oValue, Int(specI64(v))
+		}
+		return oTypeErr, nil
+	}
+	return oUnspecified, nil
+}
+
+func specUnaryOut(tok token.Token, a Object) specOutcome {
+	o, _ := specUnary(tok, a)
+	return o
+}
+
+func specUnaryVal(tok token.Token, a Object) Object {
+	_, v := specUnary(tok, a)
+	return v
+}
+
+// specFalsy: truthiness of the scalar kinds (docs/runtime-types.md):
+// false, 0, 0u, '\x00', NaN, "" and undefined are falsy.
+func specFalsy(a Object) bool {
+	switch v := a.(type) {
+	case Bool:
+		return !bool(v)
+	case Int:
+		return v == 0
+	case Uint:
+		return v == 0
+	case Char:
+		return v == 0
+	case Float:
+		return v != v
+	case String:
+		return len(v) == 0
+	case Bytes:
+		return len(v) == 0
+	case *UndefinedType:
+		return true
+	}
+	return false
 }
